@@ -94,6 +94,9 @@ func c07Kinds() []c07kind {
 		{name: "include-missing", src: func(n string) string { return "{% include \"no-such-file-" + n + "\" %}" }, render: true, cause: 1},
 		{name: "include-not-string", src: func(string) string { return "{% include 3 %}" }, render: true},
 		{name: "break-outside-loop", src: func(string) string { return "{% break %}" }, render: true, topOnly: true},
+		{name: "cycle-number-values", src: func(string) string { return "{% for q in one %}{% cycle 1, 2 %}{% endfor %}" }, offset: after("{% cycle")},
+		{name: "cycle-mixed-values", src: func(string) string { return "{% for q in one %}\n{% cycle 'g': 'a', true %}{% endfor %}" }, offset: after("{% cycle")},
+		{name: "cycle-group-without-values", src: func(string) string { return "{% for q in one %}{% cycle 'g': %}{% endfor %}" }, offset: after("{% cycle")},
 		// an application filter with an expressions.Closure parameter: the expression argument is parsed when the filter is applied
 		{name: "closure-filter-syntax", src: func(string) string { return "{{ one | xwhere_exp: 'it', 'it >' }}" }, render: true, cause: 1},
 		{name: "closure-filter-syntax-in-if", src: func(string) string { return "{% if one | xwhere_exp: 'it', '((' %}{% endif %}" }, render: true, cause: 1},
@@ -228,6 +231,17 @@ func runC07(c *core.Ctx) {
 		var res core.Res
 		switch entry {
 		case 0:
+			if k.strict && (i/len(kinds))%2 == 1 {
+				// strict variables switched on after the template was parsed: the failure is reported all the same
+				late := mk(false)
+				t, pr := core.Parse(late, src, path, start)
+				late.StrictVariables()
+				if res = pr; pr.OK() {
+					res = core.Render(t, b)
+				}
+				c.Obs("strict_switched_on_after_parse", 1)
+				break
+			}
 			res = core.RunAt(eng, src, path, start, b)
 		case 1:
 			res = core.Run(eng, src, b)
